@@ -133,8 +133,9 @@ P("C01", "exploration",
 P("C02", "exploration",
   "case = random Config (zero / negative / inverted / huge values incl. INT64_MIN/MAX in every TTL, rotation, announce and PoW field) -> effective limits checked, then 4 (quick) / 8 (thorough) stores with requested TTLs from the same set, one in three of them repeating an id stored earlier in the case after 0..5 s; "
   "the four recorded lifetimes (chunk record, manifest expiry, shard record, self announcement) are read from node state under the frozen clock and must equal clamp(request or default, min, max) exactly; distinct = effective (min, max, default, rotation)",
-  [H("node", "h_node", 3000, 200000, hprop="C02")], [A_SAN, A_VCLK, "the control-plane TTL header is checked by the C28 harness (same in-process ControlServer)"],
-  {"config.sanitised": 3000, "lifetimes.checked": 20000, "lifetimes.repeated-stores": 500})
+  [H("node", "h_node", 3000, 200000, hprop="C02"), H("control", "h_control", 300, 30000, hprop="C02c")],
+  [A_SAN, A_VCLK, "second part: the control-plane clause (STORE TTL header refused outside the window, incl. values that are an in-window TTL modulo 2^16 / 2^31 / 2^32 / 2^63) against the in-process ControlServer, the same scenario the C28 check runs"],
+  {"config.sanitised": 3000, "lifetimes.checked": 20000, "lifetimes.repeated-stores": 500, "ttl.out-of-window-requests": 500, "ttl.in-window-requests": 300})
 
 P("C03", "exploration",
   "case = 4..15 manifest arrivals (ingest, ANNOUNCE over a socketpair session with announced TTLs 0..2^32-1, replica receipt with genuine ciphertext, fetch request) with expiry at now-1e5s .. now+min-1/min/min+1 .. max+-1 .. 10 years .. the largest encodable second; "
